@@ -152,3 +152,30 @@ func TestListSameTruncated(t *testing.T) {
 		t.Errorf("float lists: six-decimal and exact renderings of group values must both be accepted")
 	}
 }
+
+func TestRecordsSameByValue(t *testing.T) {
+	// column m holds a float in this event and a string elsewhere: mixed
+	e := ev(1, 1700000000000, "m", 1.2345678901234567e19, "n", 9223372036854775807)
+	other := ev(2, 1700000000001, "m", "abc", "n", "abc")
+	kinds := model.ColKinds([]*model.Event{e, other})
+	ra := sut.Record{"_vid": "i:1", "m": "s:12345678901234567000", "n": "i:9223372036854775807"}
+	rb := sut.Record{"_vid": "i:1", "m": "f:1.2345678901234567e+19", "n": "s:9223372036854775807"}
+	if !recordsSameByValue(ra, rb, kinds, e) {
+		t.Errorf("a float and its shortest decimal text must be the same value; an integer and its text too")
+	}
+	// an integer of the dataset must keep its exact value: 2^63-1 is not 2^63
+	rc := sut.Record{"_vid": "i:1", "m": "s:12345678901234567000", "n": "f:9.223372036854775807e+18"}
+	if recordsSameByValue(ra, rc, kinds, e) {
+		t.Errorf("int64 max was accepted as the float 2^63")
+	}
+	// a pure column gets no relaxation
+	p := ev(3, 1700000000002, "q", 1.5)
+	kp := model.ColKinds([]*model.Event{p})
+	if recordsSameByValue(sut.Record{"q": "f:1.5"}, sut.Record{"q": "s:1.5"}, kp, p) {
+		t.Errorf("number and text were equated in a pure column")
+	}
+	// a field shown under one layout only
+	if recordsSameByValue(sut.Record{"q": "f:1.5"}, sut.Record{}, kp, p) {
+		t.Errorf("missing field accepted")
+	}
+}
